@@ -54,7 +54,7 @@ Join(x, y) ==
           NFor("object", 1, "v", x, NVar("k"), NVar("v"), y)}
 
 DInit == /\ e \in DeepLeaves
-         /\ e2 \in DeepLeaves
+         /\ e2 \in {NVar("s"), NVar("n1"), NVar("l"), NVar("o"), NVar("v")}   \* re-drawn from all leaves after every join
          /\ d = 0 /\ d2 = 0
          /\ pred = Result(e)
          /\ last = "leaf"
